@@ -355,6 +355,25 @@ def value_defs(fa, local, depth=0, seen=None):
             if pl is not None and not pl["p"] and pl["l"] > fa.arg_count:
                 out.extend(value_defs(fa, pl["l"], depth + 1, seen))
                 continue
+            # the value that `?` lets through: `(branch(r) as Continue).0` is the payload of the
+            # Ok(..) / Some(..) values `r` is built from (an Err / None does not get here)
+            if pl is not None and len(pl["p"]) == 2 and isinstance(pl["p"][1], dict) and pl["p"][1].get("v") == "Continue":
+                d0 = fa.single_def(pl["l"])
+                if d0 is not None and d0[2] == "call" and d0[3]["args"] and \
+                        any("Try>::branch" in x or x.endswith("Try::branch") for x in callee_paths(d0[3])):
+                    rp = op_place(d0[3]["args"][0])
+                    if rp is not None and not rp["p"]:
+                        inner = value_defs(fa, rp["l"], depth + 1, seen)
+                        if inner and all(k2 == "assign" and p2["k"] == "agg" and p2.get("variant") in ("Ok", "Some", "Err", "None")
+                                         for (b2, k2, p2) in inner):
+                            for (b2, k2, p2) in inner:
+                                if p2.get("variant") in ("Ok", "Some") and len(p2["ops"]) == 1:
+                                    ip = op_place(p2["ops"][0])
+                                    if ip is not None and not ip["p"]:
+                                        out.extend(value_defs(fa, ip["l"], depth + 1, seen))
+                                    else:
+                                        out.append((b2, "assign", {"k": "use", "op": p2["ops"][0]}))
+                            continue
         out.append((b, kind, payload))
     return out
 
@@ -396,13 +415,25 @@ def reach_const(fa, start, limit=6000, env0=None, after_stmt=None, avoid=()):
             elif rv["k"] == "agg" and rv.get("agg") == "adt" and "vi" in rv and \
                     strip_generics(str(rv.get("adt"))) in ("std::result::Result", "std::option::Option",
                                                            "core::result::Result", "core::option::Option"):
-                # which variant a Result / Option value is (`Err(..)` built on this path)
-                v = ("variant", strip_generics(str(rv["adt"])).rsplit("::", 1)[-1], rv["vi"])
+                # which variant a Result / Option value is (`Err(..)` built on this path), and - one
+                # level deep - which variant the value it wraps is (`Some(Err(..))`)
+                inner = None
+                if len(rv.get("ops") or []) == 1:
+                    ipl = op_place(rv["ops"][0])
+                    if ipl is not None and not ipl["p"] and isinstance(envd.get(ipl["l"]), tuple):
+                        inner = envd[ipl["l"]][:3]
+                v = ("variant", strip_generics(str(rv["adt"])).rsplit("::", 1)[-1], rv["vi"], inner)
             elif rv["k"] == "discr":
                 pl = rv["place"]
                 x = envd.get(pl["l"]) if not pl["p"] else None
                 if isinstance(x, tuple) and x[0] == "variant":
                     v = x[2]
+                elif len(pl["p"]) == 2 and isinstance(pl["p"][0], dict) and "dc" in pl["p"][0]:
+                    # the discriminant of the payload: `match opt { Some(Ok(..)) => .. }`
+                    x = envd.get(pl["l"])
+                    if isinstance(x, tuple) and x[0] == "variant" and len(x) > 3 and x[3] is not None and \
+                            x[2] == pl["p"][0]["dc"]:
+                        v = x[3][2]
             elif rv["k"] == "unop" and rv.get("op") == "Not":
                 k = op_const(rv["a"])
                 if k is not None and "int" in k:
